@@ -149,6 +149,78 @@ pub fn on_is_running(flag: &AtomicBool) {
         flag.store(false, Ordering::Relaxed);
         tt_snapshot_at_cut();
     }
+    let (lo, hi) = (FORK_FROM.load(Ordering::Relaxed), FORK_TO.load(Ordering::Relaxed));
+    if lo != 0 && n >= lo && n <= hi && FORK_CHILD.load(Ordering::Relaxed) == 0 {
+        fork_here(flag, n);
+    }
+}
+
+// ---------------------------------------------------------------------------
+// Fork-based checkpointing: one search, every poll a cut point. At each poll in the armed
+// range the (single-threaded) process forks; the child receives the emulated `stop` at exactly
+// this poll and runs on to the end of the search, where the harness judges it and exits; the
+// parent waits for the child's verdict and continues the uninterrupted search.
+// ---------------------------------------------------------------------------
+
+extern "C" {
+    fn fork() -> i32;
+    fn waitpid(pid: i32, status: *mut i32, options: i32) -> i32;
+    fn _exit(code: i32) -> !;
+}
+
+static FORK_FROM: AtomicU64 = AtomicU64::new(0);
+static FORK_TO: AtomicU64 = AtomicU64::new(0);
+/// 0 in the parent; in a child the poll number at which it was cut
+static FORK_CHILD: AtomicU64 = AtomicU64::new(0);
+static FORK_WRITES_AT_CUT: AtomicU64 = AtomicU64::new(0);
+static FORK_DONE: AtomicU64 = AtomicU64::new(0);
+static FORK_FAILED: Mutex<Vec<u64>> = Mutex::new(Vec::new());
+
+fn fork_here(flag: &AtomicBool, n: u64) {
+    let pid = unsafe { fork() };
+    if pid == 0 {
+        FORK_CHILD.store(n, Ordering::Relaxed);
+        let seen = TT_WRITES.lock().map(|w| w.len()).unwrap_or(0);
+        FORK_WRITES_AT_CUT.store(seen as u64, Ordering::Relaxed);
+        flag.store(false, Ordering::Relaxed);
+        tt_snapshot_at_cut();
+    } else if pid > 0 {
+        let mut status: i32 = 0;
+        unsafe { waitpid(pid, &mut status, 0) };
+        FORK_DONE.fetch_add(1, Ordering::Relaxed);
+        let exited_ok = (status & 0x7f) == 0 && ((status >> 8) & 0xff) == 0;
+        if !exited_ok {
+            FORK_FAILED.lock().unwrap_or_else(|e| e.into_inner()).push(n);
+        }
+    }
+}
+
+/// Arms forking for the polls lo..=hi of the next search (0, 0 disarms).
+pub fn fork_range(lo: u64, hi: u64) {
+    FORK_FROM.store(lo, Ordering::Relaxed);
+    FORK_TO.store(hi, Ordering::Relaxed);
+    FORK_DONE.store(0, Ordering::Relaxed);
+    FORK_FAILED.lock().unwrap_or_else(|e| e.into_inner()).clear();
+}
+
+/// In a forked child: (poll at which it was cut, number of cache writes observed before the cut).
+pub fn fork_child() -> Option<(u64, u64)> {
+    match FORK_CHILD.load(Ordering::Relaxed) {
+        0 => None,
+        n => Some((n, FORK_WRITES_AT_CUT.load(Ordering::Relaxed))),
+    }
+}
+
+pub fn fork_exit(code: i32) -> ! {
+    unsafe { _exit(code) }
+}
+
+/// In the parent: (children judged, polls whose child reported a violation or died).
+pub fn fork_results() -> (u64, Vec<u64>) {
+    (
+        FORK_DONE.load(Ordering::Relaxed),
+        FORK_FAILED.lock().unwrap_or_else(|e| e.into_inner()).clone(),
+    )
 }
 
 pub fn stop_at(k: u64) {
